@@ -132,8 +132,11 @@ Section Resort.
   Lemma mi_found i : i < n -> mi i < n /\ extent sorted (mi i) = extent pre i.
   Proof.
     intros Hi. unfold mi. rewrite <- sorted_len.
-    apply index_of_found. exists (cnth pre i). split; [|reflexivity].
-    apply (Permutation_in _ (sort_perm pre)). apply nth_In. exact Hi.
+    apply index_of_found.
+    - apply cnth_canon. apply (concept_list_canon t pre HL).
+    - apply (concept_list_canon t sorted HLs).
+    - exists (cnth pre i). split; [|reflexivity].
+      apply (Permutation_in _ (sort_perm pre)). apply nth_In. exact Hi.
   Qed.
 
   Lemma mi_inj a b : a < n -> b < n -> mi a = mi b -> a = b.
@@ -316,7 +319,7 @@ Section Lindig.
     assert (Hii : In i (idxs pre)) by (apply (In_idxs pre); exact Hi).
     assert (Ejm : j = nth i mlist 0) by (unfold mlist, sorted; rewrite (nth_mlist pre i Hi); symmetry; exact Ej).
     assert (Hmj : mi i < length sorted).
-    { unfold sorted. rewrite (sorted_len pre). apply (mi_found pre i Hi). }
+    { unfold sorted. rewrite (sorted_len pre). apply (mi_found t pre HL i Hi). }
     assert (Hnm : forall r, r < n -> nth r mlist 0 = mi r) by (intros r Hr; apply (nth_mlist pre r Hr)).
     destruct (Hgood i Hii) as [v [Lv Hv]].
     assert (Gv : get a i = v) by (unfold get; rewrite Lv; reflexivity).
@@ -471,7 +474,7 @@ Section LindigTopBottom.
     rewrite Hlen in E1.
     fold n in Hkt, Hkb.
     unfold sorted. rewrite (nth_mlist pre kt Hkt), (nth_mlist pre kb Hkb). fold sorted.
-    destruct (mi_found pre kt Hkt) as [Mt Xt]. destruct (mi_found pre kb Hkb) as [Mb Xb].
+    destruct (mi_found t pre HL kt Hkt) as [Mt Xt]. destruct (mi_found t pre HL kb Hkb) as [Mb Xb].
     fold sorted in Mt, Xt, Mb, Xb. fold n in Mt, Mb.
     assert (Hn : 0 < n) by lia.
     split; f_equal.
